@@ -35,6 +35,35 @@ class Nasty:
         dist.misfit = misfit
 
 
+class NastyFn:
+    """Like Nasty, but a *function* of the position (special values chosen by a hash of the argument)."""
+
+    @staticmethod
+    def install(dist, rnd, rate):
+        import hashlib
+
+        orig = dist.misfit
+        salt = rnd.randrange(1 << 30)
+        specials = [float("nan"), float("inf"), float("-inf"), 1e308, -1e308, 0.0]
+        first = {"done": False}
+
+        def misfit(m):
+            v = orig(m)
+            if not first["done"]:
+                first["done"] = True
+                first["arg"] = np.array(m, dtype=float).tobytes()
+                return v
+            b = np.array(m, dtype=float).tobytes()
+            if b == first["arg"]:
+                return v
+            h = int.from_bytes(hashlib.sha256(b + salt.to_bytes(4, "little")).digest()[:8], "little")
+            if (h % 1000) / 1000.0 < rate:
+                return specials[(h >> 20) % len(specials)]
+            return v
+
+        dist.misfit = misfit
+
+
 def run_chain(rnd, sampler_kind, tier):
     """one instrumented chain; returns (description, transitions, sampler, userargs)"""
     _, S, MM, D = _hm()
